@@ -18,8 +18,10 @@
 // names: k<i> = an address (key), a<i> = a contract account.  uris: space separated, components
 // joined by '/'.  env: space separated `a<i>=<rule>`; accounts not listed have no ACL stored.
 // rule: `N` (no ACL stored), `T:<theta>:<name>=<w>,...` (threshold; weights and threshold are
-// integers in units of 1/4, so every value is an exact float64), `S:<set>;<set>...` (key sets; a
-// set is names joined by '+', `0` is the empty set).
+// integers in units of 1/4, so every value is an exact float64; `Q<e>:<theta>:<name>=<w>,...` the same in units of
+// 2^-e, e in -900..900: huge (1e285) and tiny (1e-270) values, fractions with 52 significant bits; |theta| + sum |w| <
+// 2^53 in the unit, so every float64 sum the code can form is exact and the rule means the same in every unit),
+// `S:<set>;<set>...` (key sets; a set is names joined by '+', `0` is the empty set).
 // A lookup fault: the env entry `<name>=E<k>` (also allowed for keys) makes the manager's GetAccountACL(<name>) answer an
 // error (k = 0..3 selects the error text: generic, kvdb not found, transaction not found, block not found); the method
 // rule `E<k>` makes GetContractMethodACL answer an error.  A rule that cannot be read must never be taken for "no rule".
@@ -33,6 +35,9 @@ package main
 import (
 	"errors"
 	"fmt"
+	"math"
+	"math/big"
+	"regexp"
 	"strconv"
 	"strings"
 
@@ -86,6 +91,7 @@ type member struct {
 
 type rule struct {
 	kind    byte // 'N' none, 'T' threshold, 'S' key sets, 'E' the lookup answers an error (theta = error text class)
+	exp     int  // threshold rules: theta and the weights are integers in units of 2^-exp (`T:` = 2, quarters)
 	theta   int
 	members []member
 	sets    [][]string
@@ -98,8 +104,21 @@ func parseRule(s string) (*rule, error) {
 	if len(s) == 2 && s[0] == 'E' && s[1] >= '0' && s[1] <= '3' {
 		return &rule{kind: 'E', theta: int(s[1] - '0')}, nil
 	}
-	if strings.HasPrefix(s, "T:") {
-		p := strings.SplitN(s[2:], ":", 2)
+	if strings.HasPrefix(s, "T:") || strings.HasPrefix(s, "Q") {
+		// `Q<e>:` = the unit is 2^-e (e in -900..900: values from 1e-270 to 1e+285, all exact float64); `T:` = `Q2:`
+		exp, body := 2, s[2:]
+		if s[0] == 'Q' {
+			i := strings.Index(s, ":")
+			if i < 2 {
+				return nil, errors.New("bad threshold rule")
+			}
+			e, err := strconv.Atoi(s[1:i])
+			if err != nil || e < -900 || e > 900 || strconv.Itoa(e) != s[1:i] {
+				return nil, errors.New("bad unit exponent")
+			}
+			exp, body = e, s[i+1:]
+		}
+		p := strings.SplitN(body, ":", 2)
 		if len(p) != 2 {
 			return nil, errors.New("bad threshold rule")
 		}
@@ -107,7 +126,7 @@ func parseRule(s string) (*rule, error) {
 		if err != nil {
 			return nil, err
 		}
-		r := &rule{kind: 'T', theta: th}
+		r := &rule{kind: 'T', theta: th, exp: exp}
 		if p[1] != "" {
 			seen := map[string]bool{}
 			for _, m := range strings.Split(p[1], ",") {
@@ -122,6 +141,15 @@ func parseRule(s string) (*rule, error) {
 				}
 				r.members = append(r.members, member{kv[0], w})
 			}
+		}
+		// the float64 sum of any subset of the weights, in any order, is exact: |theta| + sum |w| < 2^53
+		tot := big.NewInt(int64(r.theta))
+		tot.Abs(tot)
+		for _, m := range r.members {
+			tot.Add(tot, new(big.Int).Abs(big.NewInt(int64(m.w))))
+		}
+		if tot.BitLen() > 53 {
+			return nil, errors.New("weights beyond the exact range")
 		}
 		return r, nil
 	}
@@ -152,10 +180,10 @@ func (r *rule) toACL() *pb.Acl { return r.toACLn(realName) }
 func (r *rule) toACLn(realName func(string) string) *pb.Acl {
 	switch r.kind {
 	case 'T':
-		a := &pb.Acl{Pm: &pb.PermissionModel{Rule: pb.PermissionRule_SIGN_THRESHOLD, AcceptValue: float64(r.theta) / 4},
+		a := &pb.Acl{Pm: &pb.PermissionModel{Rule: pb.PermissionRule_SIGN_THRESHOLD, AcceptValue: math.Ldexp(float64(r.theta), -r.exp)},
 			AksWeight: map[string]float64{}}
 		for _, m := range r.members {
-			a.AksWeight[realName(m.name)] = float64(m.w) / 4
+			a.AksWeight[realName(m.name)] = math.Ldexp(float64(m.w), -r.exp)
 		}
 		return a
 	case 'S':
@@ -387,6 +415,8 @@ func ar(b bool) string {
 	return "reject"
 }
 
+var wideOp = regexp.MustCompile(`Q-?[0-9]+:|[:=]-?[0-9]{10,}`)
+
 // classify gives the violation key: different root causes get different keys.
 func classify(impl, spec bool, us []uri, faulty bool) string {
 	if impl && !spec && faulty {
@@ -438,7 +468,11 @@ func check(out *xvlib.Out, op string, impl, spec bool, us []uri) {
 		return
 	}
 	op, impl, spec, us = shrink(op, impl, spec, us)
-	out.Violate(xvlib.Violation{Key: classify(impl, spec, us, faultyOp(op)),
+	key := classify(impl, spec, us, faultyOp(op))
+	if wideOp.MatchString(op) {
+		key += ":weights-beyond-the-small-range" // a threshold rule in another unit than quarters, or with a value of 10+ digits
+	}
+	out.Violate(xvlib.Violation{Key: key,
 		What: fmt.Sprintf("the real evaluation answered %s but the rule is %s by the verified signers (sum of member weights / key sets over the last components)",
 			ar(impl), map[bool]string{true: "satisfied", false: "not satisfied"}[spec]),
 		Ops: []string{op}, Impl: []string{ar(impl)}})
@@ -509,6 +543,9 @@ func forMultisets(a []uri, max int, f func([]uri)) {
 var evals int
 
 func exec(line string, out *xvlib.Out) string {
+	if strings.HasPrefix(line, "conc ") {
+		return execConc(line, out)
+	}
 	f := strings.Split(line, "|")
 	switch f[0] {
 	case "ida", "idx":
@@ -682,7 +719,11 @@ func main() {
 		out.Emit(line, r)
 		kind := strings.SplitN(line, "|", 2)[0]
 		n := evals - before
-		if n <= 1 {
+		if strings.HasPrefix(line, "conc ") {
+			out.Case(line, nontrivial)
+			out.Count("conc")
+			out.Stats.Evaluations += n
+		} else if n <= 1 {
 			out.Case(line, nontrivial)
 			out.Count(kind + ":" + r)
 		} else {
